@@ -18,7 +18,11 @@ RULE = ('one case = one (laminate, aspect ratio, load ratio or frequency, restra
         'solved and every lattice edge compared; non-trivial = all')
 ASSUMPTIONS = ['dense symmetric-definite solver (scipy eigh) on the package matrices restricted to active amplitudes',
                'monotonicity tolerance 1e-7 relative (dense eigen-solver noise floor ~2e-9); closed forms: double-sine series for SSSS specially orthotropic plates (with rotary inertia)']
-LAMS = {'uni0': [0.], 'uni90': [90.], 'cross_sym': [0., 90., 90., 0.], 'iso': None}
+LAMS = {'uni0': [0.], 'uni90': [90.], 'cross_sym': [0., 90., 90., 0.], 'iso': None,
+        # plies of unequal thickness (symmetric about the mid-surface, so B = 0 and D16 = D26 = 0 still hold)
+        'cross_uneq': [0., 90., 0.], 'cross_uneq2': [90., 0., 0., 90.]}
+PLYTS = {'cross_uneq': [0.3e-3, 0.8e-3, 0.3e-3], 'cross_uneq2': [0.2e-3, 0.5e-3, 0.5e-3, 0.2e-3]}
+TOP = [(4, 4), (16, 4), (4, 16), (15, 15), (16, 15), (15, 16), (16, 16)]
 ASPECTS = [0.2, 0.5, 1.0, 1.7, 5.0]
 NEIG = 5
 
@@ -30,6 +34,12 @@ def cases(tier, seed):
         if tier == 'quick' and asp in (0.2, 5.0) and lam not in ('cross_sym',):
             continue
         out.append(dict(lam=lam, aspect=asp, what=what, fbase='SSSS', M=M, seed=seed))
+    if tier == 'quick':
+        # top of the quantified range of series orders, on the sub-lattice TOP (all componentwise-ordered pairs compared)
+        for lam, asp, what in itertools.product(LAMS, [0.2, 1.0, 5.0], ['lb0', 'lb0.5', 'lb1', 'freq']):
+            if asp == 1.0 and lam not in ('cross_sym', 'cross_uneq'):
+                continue
+            out.append(dict(lam=lam, aspect=asp, what=what, fbase='SSSS', M=16, top=1, seed=seed))
     for fb, lam, what in itertools.product(['CCCC', 'CFSF'], ['cross_sym', 'general'], ['lb0.5', 'freq']):
         out.append(dict(lam=lam, aspect=1.7, what=what, fbase=fb, M=M if tier == 'thorough' else 9, seed=seed))
     return out
@@ -61,14 +71,20 @@ def build(case, m, n):
         stack, mat, plyt = [30., -60., 17.3], pan.M6, 0.4e-3
     else:
         stack, mat, plyt = LAMS[case['lam']], pan.M6, 0.4e-3
-    p = Panel(a=a, b=b, stack=stack, plyt=plyt, laminaprop=mat, m=m, n=n, mu=1600.)
+    if case['lam'] in PLYTS:
+        plyt = PLYTS[case['lam']]
+        p = Panel(a=a, b=b, stack=stack, plyts=list(plyt), laminaprop=mat, m=m, n=n, mu=1600.)
+    else:
+        p = Panel(a=a, b=b, stack=stack, plyt=plyt, laminaprop=mat, m=m, n=n, mu=1600.)
     for k, v in flags_for(case['fbase']).items():
         setattr(p, k, v)
     return p, a, b, stack, mat, plyt
 
 
 def closed_form(case, a, b, stack, mat, plyt, nvals):
-    L = rl.abd(stack, [plyt] * len(stack), [mat] * len(stack))
+    L = rl.abd(stack, list(plyt) if isinstance(plyt, (list, tuple)) else [plyt] * len(stack), [mat] * len(stack))
+    if max(abs(L['B']).max() / L['A'].max() / L['h'], abs(L['D'][0, 2]) / L['D'][0, 0], abs(L['D'][1, 2]) / L['D'][0, 0]) > 1e-12:
+        raise AssertionError('harness: laminate letter is not specially orthotropic')
     D = L['D']
     h = L['h']
     vals = []
@@ -110,14 +126,19 @@ def check_case(case):
     vals = {}
     geo = None
     lo = 6 if case['fbase'] == 'CCCC' else 4        # clamped edges need index >= 4 functions to have any active amplitude
-    for m in range(lo, M + 1):
-        for n in range(lo, M + 1):
+    if case.get('top'):
+        for m, n in TOP:
             vals[(m, n)], geo = solve(case, m, n)
+    else:
+        for m in range(lo, M + 1):
+            for n in range(lo, M + 1):
+                vals[(m, n)], geo = solve(case, m, n)
     execs = len(vals)
     edges = 0
     worst = 0.0
     for (m, n), v in vals.items():
-        for nb in ((m + 1, n), (m, n + 1)):
+        nbs = ((m + 1, n), (m, n + 1)) if not case.get('top') else [q for q in vals if q != (m, n) and q[0] >= m and q[1] >= n]
+        for nb in nbs:
             if nb in vals:
                 edges += 1
                 w = vals[nb]
